@@ -158,11 +158,11 @@ func (s lruStore) get(k hkey) (val, int64, bool) {
 	v, ok := s.l.Get(k)
 	return v, v.Exp, ok
 }
-func (s lruStore) put(k hkey, v val)                      { s.l.Add(k, v) }
-func (s lruStore) flush()                                 { s.l.Flush() }
-func (s lruStore) length() int                            { return s.l.Len() }
-func (s lruStore) rangeAll(func(hkey, val, int64)) bool   { return false }
-func (s lruStore) del(k hkey) bool                        { s.l.Del(k); return true }
+func (s lruStore) put(k hkey, v val)                    { s.l.Add(k, v) }
+func (s lruStore) flush()                               { s.l.Flush() }
+func (s lruStore) length() int                          { return s.l.Len() }
+func (s lruStore) rangeAll(func(hkey, val, int64)) bool { return false }
+func (s lruStore) del(k hkey) bool                      { s.l.Del(k); return true }
 func (s lruStore) clean(pred func(k hkey) bool) bool {
 	s.l.Clean(func(k hkey, v val) bool { return pred(k) })
 	return true
